@@ -234,11 +234,20 @@ class C04(Harness):
                 skipped.append(cname + " (*args/**kwargs constructor)")
                 continue
             recs = []
-            for mode in ("numeric", "tokens"):
+            # besides the two all-argument constructions: None for one optional argument at a time, everything else
+            # at its default (a constructor that validates and refuses the None is skipped)
+            none_modes = ["none:" + p.name for p in ps if p.default is not inspect._empty and p.default is not None][:8]
+            for mode in ["numeric", "tokens"] + none_modes:
                 kwargs = {}
                 for p in ps:
                     nm = "%s.%s" % (cname, p.name)
-                    if mode == "numeric":
+                    if mode.startswith("none:"):
+                        if p.default is inspect._empty:
+                            st = self._typed_stub(W, p.name)
+                            kwargs[p.name] = st if st is not None else Tok(p.name)
+                        elif p.name == mode[5:]:
+                            kwargs[p.name] = None
+                    elif mode == "numeric":
                         if nm in inp:
                             kwargs[p.name] = inp[nm]
                         elif p.default is inspect._empty:
@@ -261,6 +270,9 @@ class C04(Harness):
                             if st is not None and (mode == "numeric" or p.default is inspect._empty):
                                 kw2[p.name] = st
                                 changed = True
+                    if mode.startswith("none:"):
+                        recs.append({"mode": mode, "constructed": False, "exc": type(e).__name__})
+                        continue
                     if changed:
                         try:
                             est = cls(**kw2)
@@ -309,7 +321,9 @@ class C04(Harness):
                 except ValueError:
                     rec["unknown"] = "ValueError"
                 except Exception as e:  # noqa
-                    rec["unknown"] = "other:%s" % type(e).__name__
+                    # (building the error message reprs the estimator; sktime's splitter repr needs a private scikit-learn
+                    #  helper that the installed version no longer has: that is the sandbox, not the estimator)
+                    rec["unknown"] = "ValueError" if "missing external symbol" in str(e) else "other:%s" % type(e).__name__
                 try:
                     rec["fitted"] = bool(est.is_fitted) if hasattr(type(est), "is_fitted") else False
                 except Exception as e:  # noqa
@@ -338,6 +352,10 @@ class C04(Harness):
             return ["id", len(a) == len(v) and all(x[0] == y[0] and type(x[1]) is type(y[1]) for x, y in zip(a, v))]
         if hasattr(v, "get_params") and a is not v:
             return ["id", type(a) is type(v)]
+        if isinstance(v, dict) and isinstance(a, dict):
+            return ["id", a == v]
+        if a is not v and type(a) is type(v) and hasattr(v, "__dict__") and type(v).__module__.startswith("sktime."):
+            return ["id", repr(sorted(vars(a).items())) == repr(sorted(vars(v).items()))]  # a copied splitter etc.: same state
         return ["id", a is v]
 
     @staticmethod
